@@ -229,6 +229,9 @@ def run(chk, tier):
     db = D.load("checks")
     from ..rules import params as _PR
     _PR.check(chk, db, ['_vector/', '_inplace_vector/', '_stack/'], floor=40)
+    from ..rules import sibs as _SB
+    _SB.check(chk, db, ['_vector/', '_inplace_vector/', '_stack/'])      # SIB: cv/ref-qualified overloads of one member agree
+    _SB.positive_control(chk)
     cap_rule(chk, db)
     try_rule(chk, db)
     own_rule(chk, db)
